@@ -6,6 +6,7 @@ package json
 import (
 	"encoding/json"
 	"fmt"
+	"unicode/utf8"
 
 	"github.com/hashicorp/hcl/v2"
 	"github.com/zclconf/go-cty/cty"
@@ -447,6 +448,19 @@ func parseString(p *peeker) (node, hcl.Diagnostics) {
 				Detail:   "There is a syntax error in the given JSON string.",
 				Subject:  &errRange,
 				Context:  contextRange,
+			},
+		}
+	}
+
+	if !utf8.Valid(tok.Bytes) {
+		// encoding/json silently replaces ill-formed sequences with U+FFFD,
+		// but JSON text must be valid UTF-8 (as HCL native syntax must be).
+		return nil, hcl.Diagnostics{
+			{
+				Severity: hcl.DiagError,
+				Summary:  "Invalid JSON string",
+				Detail:   "The given JSON string contains a byte sequence that is not valid UTF-8.",
+				Subject:  &tok.Range,
 			},
 		}
 	}
